@@ -23,7 +23,7 @@ use yash_env::io::Fd;
 use yash_env::semantics::{ExitStatus, Field};
 use yash_env::system::concurrency::{ReadAll as _, Sleep as _, WriteAll as _};
 use yash_env::variable::Value as VarValue;
-use yvcommon::sched::Outcome;
+use yvcommon::sched::{Outcome, Schedule};
 use yvcommon::shell::{FileSpec, ShellCfg, VEnv, run_shell};
 use yvcommon::util::catch;
 
@@ -251,11 +251,14 @@ pub fn script_of(cases: &[Case], toks: &[String]) -> String {
 }
 
 /// One shell run for all `cases` over the same input.
-fn run_batch(cases: &[Case], toks: &[String]) -> (String, Vec<Option<Obs>>) {
+fn run_batch(cases: &[Case], toks: &[String], sched: Option<u64>) -> (String, Vec<Option<Obs>>) {
     let (bytes, bounds) = input_bytes(toks);
     let script = script_of(cases, toks);
     let mut cfg = ShellCfg::command(&script);
     cfg.step_limit = 400_000 + 20_000 * cases.len();
+    if let Some(seed) = sched {
+        cfg.schedule = Schedule::Random(seed);
+    }
     cfg.files.push(FileSpec::Regular { path: "/tmp/in".into(), content: bytes.clone(), mode: 0o644 });
     cfg.setup = Some(Box::new(|env: &mut VEnv, state| {
         state.borrow_mut().now = Some(std::time::Instant::now());
@@ -306,8 +309,9 @@ fn run_batch(cases: &[Case], toks: &[String]) -> (String, Vec<Option<Obs>>) {
 
 /// Observations of all cases.  When the batch does not complete, every case is
 /// run again on its own so that the failure is attributed to the right one.
-pub fn run_cases(cases: &[Case], toks: &[String], runs: &mut usize) -> Vec<Obs> {
-    let (outcome, obs) = run_batch(cases, toks);
+/// `sched`: seed of a random schedule of the simulated processes (None: first-in first-out).
+pub fn run_cases(cases: &[Case], toks: &[String], sched: Option<u64>, runs: &mut usize) -> Vec<Obs> {
+    let (outcome, obs) = run_batch(cases, toks, sched);
     *runs += 1;
     if outcome == "completed" && obs.iter().all(|o| o.is_some()) {
         return obs.into_iter().map(|o| o.unwrap()).collect();
@@ -331,5 +335,5 @@ pub fn run_cases(cases: &[Case], toks: &[String], runs: &mut usize) -> Vec<Obs> 
             },
         }];
     }
-    cases.iter().map(|c| run_cases(std::slice::from_ref(c), toks, runs).pop().unwrap()).collect()
+    cases.iter().map(|c| run_cases(std::slice::from_ref(c), toks, sched, runs).pop().unwrap()).collect()
 }
